@@ -502,7 +502,13 @@ class SourceGenerator(NodeVisitor):
     # Expressions
 
     def visit_Attribute(self, node):
-        self.visit(node.value)
+        if isinstance(getattr(node.value, "value", None), (int, float)):
+            # 1 .real: the dot must not run into the number
+            self.write("(")
+            self.visit(node.value)
+            self.write(")")
+        else:
+            self.visit(node.value)
         self.write("." + node.attr)
 
     def visit_Call(self, node):
